@@ -7,7 +7,24 @@ use std::path::PathBuf;
 use vpharness::{jarr, jstr};
 
 fn build_config(c: &Value) -> BuildConfig {
-    let mut cfg = BuildConfig::new(jstr(c, "builder"), jstr(c, "app_dir"));
+    // "superseded": values set first and then replaced by the final ones through the same setters (last call wins)
+    let sup = c.get("superseded").filter(|x| !x.is_null());
+    let mut cfg = if sup.and_then(|x| x.get("app_dir")).is_some_and(|x| !x.is_null()) {
+        let mut cfg = BuildConfig::new(jstr(c, "builder"), jstr(sup.unwrap(), "app_dir"));
+        cfg.app_dir(jstr(c, "app_dir"));
+        cfg
+    } else {
+        BuildConfig::new(jstr(c, "builder"), jstr(c, "app_dir"))
+    };
+    if let Some(sup) = sup {
+        if sup.get("buildpacks").is_some_and(|x| !x.is_null()) {
+            cfg.buildpacks(jarr(sup, "buildpacks").iter().map(|b| BuildpackReference::Other(b.as_str().unwrap().to_string())).collect::<Vec<_>>());
+        }
+        for kv in jarr(sup, "env") {
+            let kv = kv.as_array().unwrap();
+            cfg.env(kv[0].as_str().unwrap(), kv[1].as_str().unwrap());
+        }
+    }
     let bps: Vec<BuildpackReference> = jarr(c, "buildpacks").iter().map(|b| BuildpackReference::Other(b.as_str().unwrap().to_string())).collect();
     cfg.buildpacks(bps);
     // half of the env through env(), half through envs()
@@ -53,15 +70,40 @@ fn build_config(c: &Value) -> BuildConfig {
 
 fn container_config(c: &Value) -> ContainerConfig {
     let mut cfg = ContainerConfig::new();
+    if let Some(sup) = c.get("superseded").filter(|x| !x.is_null()) {
+        if let Some(e) = sup.get("entrypoint").and_then(Value::as_str) {
+            cfg.entrypoint(e);
+        }
+        if let Some(cmd) = sup.get("command").filter(|x| !x.is_null()) {
+            cfg.command(cmd.as_array().unwrap().iter().map(|x| x.as_str().unwrap().to_string()).collect::<Vec<_>>());
+        }
+        for kv in jarr(sup, "env") {
+            let kv = kv.as_array().unwrap();
+            cfg.env(kv[0].as_str().unwrap(), kv[1].as_str().unwrap());
+        }
+        for m in jarr(sup, "mounts") {
+            let m = m.as_array().unwrap();
+            cfg.bind_mount(m[0].as_str().unwrap(), m[1].as_str().unwrap());
+        }
+    }
     if let Some(e) = c.get("entrypoint").and_then(Value::as_str) {
         cfg.entrypoint(e);
     }
     if let Some(cmd) = c.get("command").filter(|x| !x.is_null()) {
         cfg.command(cmd.as_array().unwrap().iter().map(|x| x.as_str().unwrap().to_string()).collect::<Vec<_>>());
     }
-    for kv in jarr(c, "env") {
+    // half of the env through env(), half through envs()
+    let env = jarr(c, "env");
+    let (a, b) = env.split_at(if c.get("envs_split").and_then(Value::as_bool).unwrap_or(false) { env.len() / 2 } else { env.len() });
+    for kv in a {
         let kv = kv.as_array().unwrap();
         cfg.env(kv[0].as_str().unwrap(), kv[1].as_str().unwrap());
+    }
+    if !b.is_empty() {
+        cfg.envs(b.iter().map(|kv| {
+            let kv = kv.as_array().unwrap();
+            (kv[0].as_str().unwrap().to_string(), kv[1].as_str().unwrap().to_string())
+        }));
     }
     for p in jarr(c, "ports") {
         cfg.expose_port(p.as_u64().unwrap() as u16);
